@@ -432,19 +432,22 @@ def r4_output_switch(ctx) -> None:
             for c in (x for x in walk_no_nested(f.node) if isinstance(x, ast.Call) and call_name(x).endswith(".reset_references")):
                 r.violation("C09.R4", q, short(c, 80), "reference state is reset outside a resolution", f"{f.module.relpath}:{c.lineno}")
     from .c08 import _slot_functions
+    from .standins import run_per_rule_converter
     for q in _slot_functions(ctx):
         f = prog.func(q)
-        rets = [x for x in walk_no_nested(f.node) if isinstance(x, ast.Return) and x.value is not None and not (isinstance(x.value, ast.List) and not x.value.elts)]
-        for rt in rets:
-            in_handler = any(isinstance(a, ast.ExceptHandler) for a in prog.ancestors(rt))
-            if in_handler:
-                continue
-            gs = atomic_guards(guards_at(prog, f, rt))
-            loc = f"{f.module.relpath}:{rt.lineno}"
-            if ("rule._output", True) in gs:
-                r.ok("C09.R4", q, f"{stmt_head(rt)} under rule._output", loc)
-            else:
-                r.violation("C09.R4", q, stmt_head(rt), "queries returned without testing rule._output", loc)
+        fn = q.rsplit(".", 1)[-1]
+        # the per-rule converter interpreted (sa.tabulate, Proxy) on a stand-in rule with the switch on and off
+        bad = []
+        for fin_sub in (False, True):
+            for referenced in (False, True):
+                for output in (False, True):
+                    o = run_per_rule_converter(ctx, fn, fin_sub, referenced, output)
+                    if o.raised is not None or bool(list(o.ret or [])) != output:
+                        bad.append(f"_output={output}, referenced={referenced}, backend finalises sub-queries={fin_sub}: " + (f"raises {o.raised}" if o.raised is not None else f"returns {o.ret!r}"))
+        if not bad:
+            r.ok("C09.R4", q, "queries are returned exactly under rule._output (8 interpreted cases)", f.loc)
+        else:
+            r.violation("C09.R4", q, f"return of the queries: {bad[0]}", "queries returned without testing rule._output", f.loc)
     # finalisation of sub-queries depends on backreferences only
     r.floor("C09.R4", 4)
 
